@@ -424,6 +424,25 @@ def wide_entries():
                    "core::math::u256_mul_mod_n(a, b, n)", mulmod, tags=("nonlinear", "wide")))
     E.append(Entry("wide_square_u128", [("a", "u128")], "u256", "a.wide_square()",
                    lambda a: [(True, ok(vu256(i_(a) * i_(a))))], tags=("nonlinear",)))
+
+    def limbs(v):
+        return v[1][0][1], v[1][1][1]
+
+    def sq256(a):
+        # written over the limb products the code itself forms, so that the product abstraction
+        # (solve.abstract_products) can relate both sides
+        a0, a1 = limbs(a)
+        return [(True, ok(vu512(a0 * a0 + 2 * R128 * (a0 * a1) + R128 * R128 * (a1 * a1))))]
+    E.append(Entry("wide_square_u256", [("a", "u256")], "u512", "a.wide_square()", sq256,
+                   tags=("nonlinear", "wide", "limbs", "thorough_only")))
+
+    def mul256(a, b):
+        a0, a1 = limbs(a)
+        b0, b1 = limbs(b)
+        return [(True, ok(vu512(a0 * b0 + R128 * (a0 * b1) + R128 * (a1 * b0) +
+                                R128 * R128 * (a1 * b1))))]
+    E.append(Entry("wide_mul_u256_limbs", [("a", "u256"), ("b", "u256")], "u512", "a.wide_mul(b)",
+                   mul256, tags=("nonlinear", "wide", "limbs", "thorough_only")))
     return E
 
 
